@@ -210,6 +210,8 @@ pub struct Run {
     pub max_id_seen: Option<LogId>,
     /// `records_after_op[k]` = number of accepted records once op number `k` (1-based) returned.
     pub records_after_op: Vec<usize>,
+    /// Last effective purge: (closed chunks of the expected layout right after it, purge id).
+    pub last_purge: Option<(usize, LogId)>,
 }
 
 fn seg_pair(s: &Segment) -> (u64, u64) {
@@ -283,6 +285,7 @@ impl Run {
             saw_index_max: false,
             max_id_seen: None,
             records_after_op: vec![0],
+            last_purge: None,
         };
         r.open_store(cfg).map_err(|e| Fail::new("open-fresh", format!("open of a fresh directory failed: {e}")))?;
         Ok(r)
@@ -310,6 +313,7 @@ impl Run {
             saw_index_max: false,
             max_id_seen: None,
             records_after_op: vec![0],
+            last_purge: None,
         };
         r.max_id_seen = r.model.cur.log.values().map(|v| v.0).max().max(r.model.cur.st.last);
         if let Some(m) = r.max_id_seen {
@@ -617,7 +621,11 @@ impl Run {
                 let res = self.rl_mut().purge(upto);
                 if journalled {
                     self.classes.hit("purge");
-                    self.wrote(res, &[Rec::PurgeUpto(upto)], &format!("purge({upto:?})"))
+                    let r = self.wrote(res, &[Rec::PurgeUpto(upto)], &format!("purge({upto:?})"));
+                    if let Some(l) = &self.layout {
+                        self.last_purge = Some((l.chunks.len() - 1, upto));
+                    }
+                    r
                 } else {
                     self.classes.hit("purge_noop");
                     match res {
